@@ -6,6 +6,13 @@ so a state is restored by replaying its operation history on a fresh listing (th
 mc/engine_seq.py, re-implemented here so that one large search can be split over several workers - see
 search()).
 
+Second-object dimension (searches '<file>@k+by', k = 2; thorough also 3): the same search with a reduced cursor
+alphabet plus the actions 'open a second listing' (a second reader of the very file under test, or the smallest
+shipped listing of each other simulator family) and 'second listing .next()'; the second object is part of the
+state; every state is restored through the real constructor.  Judged by effect only: after every action the
+listing under test, and the second listing, must each show what a fresh listing at its index showed - snapshots
+taken before any second object existed.  Signatures of this dimension end in |second-object=<same-file|other-family>.
+
 Oracle (the property statement):
   invariant   in every reached state the reported index, time, step and every table (values, row and column
               names) equal those of a genuinely freshly opened listing with `index = i` assigned directly
@@ -32,7 +39,10 @@ RULE = ('per (listing, truncation to k result times): breadth-first search to cl
         'two tables), history(one item per table)}; a state is the whole reader object (a digest of every attribute '
         'including which arrays are shared between attributes - hence index, time, step, all table data) plus the file '
         'offset; every (state, action) pair is one transition executed on the real '
-        'reader and compared with the index model and with a freshly opened listing positioned directly')
+        'reader and compared with the index model and with a freshly opened listing positioned directly. Second-object '
+        'searches (file cut to 2, thorough also 3, result times): alphabet {first, last, next, prev, index in {0, middle, last}, '
+        'time=last, step=first, history(single), history(all), open second listing (same file / smallest listing of each other '
+        'simulator family), second listing.next()}, the second listing being part of the state; to closure')
 ASSUMPTIONS = ['index= is explored for the arguments a Python sequence of k result sets accepts (-k..k-1); other '
                'arguments are outside the documented contract',
                'time=/step= accept any result set whose distance is within the rounding of one double subtraction '
@@ -43,13 +53,17 @@ ASSUMPTIONS = ['index= is explored for the arguments a Python sequence of k resu
                'file handle); the copy is compared field by field with a second genuine open once per file, every '
                'new state is re-derived once on a genuinely fresh open, and every violation is re-executed on a '
                'genuinely fresh open before it is reported',
+               'no interference is judged by effect only: a second live listing (same file or another simulator family) may share '
+               'anything with the listing under test as long as both keep showing what their fresh snapshots showed; at most one '
+               'second object per search path, never closed',
                'history return values are not judged here (C06 does); only that the call returns and leaves the '
                'reader showing what it showed',
                'non-termination = more than 20 x lines x (result sets + 2) readline calls in one library call, or '
                'more than 4 x lines + 1000 consecutive reads at end of file']
-BOUNDS = {'quick': {'state_cap': '20 x result times + 60 states per search (never reached on the unchanged tree)', 'files': 'shipped listings with >= 2 result times and size < 300 kB, plus those < 500 kB that mix short and full result sets',
+BOUNDS = {'quick': {'second_object_searches': 'every file cut to 2 result times; one second object per path', 'state_cap': '20 x result times + 60 states per search (never reached on the unchanged tree)', 'files': 'shipped listings with >= 2 result times and size < 300 kB, plus those < 500 kB that mix short and full result sets',
                     'truncations': 'all k in 1..N for N <= 6, otherwise k in {1, 2, N}', 'depth': 'to closure'},
-          'thorough': {'state_cap': '20 x result times + 60 states per search (never reached on the unchanged tree)',
+          'thorough': {'second_object_searches': 'every file cut to 2 and to 3 result times; one second object per path',
+                       'state_cap': '20 x result times + 60 states per search (never reached on the unchanged tree)',
                        'files': 'all shipped listings with >= 2 result times',
                        'truncations': 'all k in 1..N for N <= 6, otherwise k in {1, 2, N-1, N}', 'depth': 'to closure'}}
 TECHNIQUE = ('explicit-state breadth-first search to closure over navigation call sequences on the real t2listing '
@@ -94,8 +108,29 @@ def units(tier):
             est = 6 * k * (10 * k + 7)
             nshards = max(1, min(16, int(math.ceil(est / float(SHARD_TRANSITIONS)))))
             for sh in range(nshards):
-                us.append((key, k, sh, nshards))
+                us.append((key, k, sh, nshards, 'main'))
+        # the second-object dimension: searches in which another listing is opened and moved between the actions
+        # of the listing under test (small truncations only: the space is a product of two cursors)
+        for k in ([2] if tier == 'quick' else sorted(set([2, min(n, 3)]))):
+            us.append((key, k, 0, 1, 'by'))
     return us
+
+
+def family_of(key):
+    top = key.split('/')[0]
+    return 'AUTOUGH2' if top == 'AUTOUGH2' else ('TOUGH+' if top == 'TOUGHplus' else 'TOUGH2-like')
+
+
+_reps = {}
+
+
+def representatives():
+    """{family: key of the smallest shipped listing of that family with >= 2 result times}"""
+    if not _reps:
+        for key, path, size in sorted(listkit.shipped(), key=lambda e: (e[2], e[0])):
+            if len(listkit.scan_of(path).full) >= 2:
+                _reps.setdefault(family_of(key), key)
+    return _reps
 
 
 # ---------------------------------------------------------------------------------------------------
@@ -103,8 +138,8 @@ def units(tier):
 class Ctx(object):
     """Everything fixed for one search: the file, the model, the reference observations."""
 
-    def __init__(self, key, k):
-        self.key, self.k = key, k
+    def __init__(self, key, k, mode='main'):
+        self.key, self.k, self.mode = key, k, mode
         self.src = listkit.path_of(key)
         self.path = listkit.truncated_copy(self.src, k, tag='c07')
         sc = listkit.scan_of(self.path)
@@ -113,8 +148,35 @@ class Ctx(object):
         self.model = navmodel.NavModel([s.time for s in full], [s.step for s in full])
         self.refs = None
         self.sim = None
-        self.seed_name = '%s@%d' % (key, k)
+        self.seed_name = '%s@%d%s' % (key, k, '+by' if mode == 'by' else '')
         self.model_cache = {}
+        self.bystanders = None
+        self.force_genuine = False
+
+    def prepare_bystanders(self):
+        """{label: (path, snapshots of a fresh listing of it at each index)} - taken, like the references of the
+        listing under test, before any second object exists in this search.  Labels: 'same-file' (a second reader
+        of the very file under test) and 'other-family:<family>' (the smallest shipped listing of each other
+        simulator family, cut to two result times)."""
+        if self.bystanders is None:
+            self.references()
+            by = {'same-file': (self.path, self.refs)}
+            for fam, rkey in sorted(representatives().items()):
+                if fam == family_of(self.key):
+                    continue
+                rpath = listkit.truncated_copy(listkit.path_of(rkey), 2, tag='c07by')
+                refs = []
+                for i in range(len(listkit.scan_of(rpath).full)):
+                    lst = listkit.open_listing(rpath)
+                    lst._file.arm()
+                    with listkit.quiet():
+                        lst.index = i
+                    lst._file.disarm()
+                    refs.append(listkit.observe(lst, names=True))
+                    listkit.close_listing(lst)
+                by['other-family:' + fam] = (rpath, refs)
+            self.bystanders = by
+        return self.bystanders
 
     def references(self):
         """Observation of a genuinely freshly opened listing positioned directly at each index."""
@@ -144,6 +206,27 @@ class Ctx(object):
         return self.refs
 
     def alphabet(self, tablenames):
+        if self.mode == 'by':
+            return self.alphabet_with_bystanders(tablenames)
+        return self.full_alphabet(tablenames)
+
+    def alphabet_with_bystanders(self, tablenames):
+        """Reduced cursor alphabet for the listing under test, plus the second-object actions."""
+        m = self.model
+        ops = [['first'], ['last'], ['next'], ['prev']]
+        for j in sorted(set([0, m.n // 2, m.n - 1])):
+            ops.append(['index', j, 'nonnegative'])
+        ops.append(['time', m.times[-1], 'exact'])
+        ops.append(['step', m.steps[0], 'exact'])
+        ops.append(['history', 'single'])
+        if len(tablenames) >= 2:
+            ops.append(['history', 'all'])
+        for label in sorted(self.prepare_bystanders()):
+            ops.append(['bystander', 'open', label])
+        ops.append(['bystander', 'next'])
+        return ops
+
+    def full_alphabet(self, tablenames):
         m = self.model
         ops = [['first'], ['last'], ['next'], ['prev']]
         for j in m.valid_index_arguments():
@@ -174,6 +257,22 @@ class State(object):
         self.lst = lst
         self.hist = []
         self.genuine = genuine
+        self.by = None            # (label, second listing object alive next to the one under test)
+
+
+def close_state(st):
+    listkit.close_listing(st.lst)
+    if st.by is not None:
+        listkit.close_listing(st.by[1])
+        st.by = None
+
+
+def enabled(hist, op):
+    """At most one second object per search path: it can be opened once, and moved once it exists."""
+    if op[0] != 'bystander':
+        return True
+    has = any(o[0] == 'bystander' and o[1] == 'open' for o in hist)
+    return (not has) if op[1] == 'open' else has
 
 
 def history_selection(lst, which):
@@ -233,6 +332,13 @@ def apply_op(st, op, judge=True):
     tail = '|%s|%s' % (cls, sim)
     ret = None
     used = None
+    if name == 'bystander':
+        v = apply_bystander(st, op, judge)
+        if v or not judge:
+            return v
+        return judge_objects(st, op, i0, sim)
+    # signatures of the second-object dimension are kept apart from those of the single-reader searches
+    so = ('|second-object=' + st.by[0].split(':')[0]) if st.by is not None else ''
     lst._file.arm()
     try:
         with listkit.quiet():
@@ -258,14 +364,14 @@ def apply_op(st, op, judge=True):
     except listkit.BudgetExceeded as e:
         lst._file.disarm()
         extra = ('|tables=' + '+'.join(used)) if used else ''
-        return [('C07|%s|nontermination|%s%s' % (name, sim, extra),
+        return [('C07|%s|nontermination|%s%s%s' % (name, sim, extra, so),
                  '%s on %s (%d result times) does not terminate: %s; actions %r'
                  % (name, ctx.key, m.n, e, st.hist + [op]))]
     except (core.CaseTimeout, core.HarnessError):
         raise
     except Exception as e:
         lst._file.disarm()
-        return [(base + 'raises-%s' % type(e).__name__ + tail,
+        return [(base + 'raises-%s' % type(e).__name__ + tail + so,
                  '%r raised %r on %s (%d result times) after %r' % (op, e, ctx.key, m.n, st.hist))]
     lst._file.disarm()
     if not judge:
@@ -285,13 +391,17 @@ def apply_op(st, op, judge=True):
         else:
             clause = 'wrong-result-set'
         # the cursor arithmetic is the same code for every simulator: no simulator in these signatures
-        out.append((base + clause + (tail if name == 'history' else '|' + cls),
+        out.append((base + clause + (tail if name == 'history' else '|' + cls) + so,
                     '%r from index %d lands on index %r, the model accepts %s (%s, %d result times, after %r)'
                     % (op, i0, idx, sorted(acc), ctx.key, m.n, st.hist)))
         return out
     if moved is not None and bool(ret) != moved:
-        out.append((base + 'return-value|' + cls,
+        out.append((base + 'return-value|' + cls + so,
                     '%s() from index %d of %d returned %r, expected %r (%s)' % (name, i0, m.n, ret, moved, ctx.key)))
+    if st.by is not None:
+        # a second object is alive: same oracle, signatures of their own (and the second object must still show
+        # what its own fresh snapshot shows)
+        return out + judge_objects(st, op, idx, sim)
     # invariant: shows what a freshly opened listing positioned directly shows
     obs = listkit.observe(lst, names=True)
     ref = refs[idx]
@@ -317,6 +427,92 @@ def _brief(obs):
     return (obs[0], obs[1], obs[2])
 
 
+def _part(obs, ref):
+    if obs[0] != ref[0]:
+        return 'index'
+    if obs[1] != ref[1]:
+        return 'time'
+    if obs[2] != ref[2]:
+        return 'step'
+    bad = [a[0] for a, b in zip(obs[3], ref[3]) if a != b]
+    return 'table-' + (bad[0] if bad else 'set')
+
+
+def apply_bystander(st, op, judge):
+    """open / move the second object.  -> violations of the action itself (it must work as on its own)."""
+    ctx = st.ctx
+    by = ctx.prepare_bystanders()
+    if op[1] == 'open':
+        label = op[2]
+        kind = label.split(':')[0]
+        if st.by is not None:
+            raise core.HarnessError('second object opened twice')
+        try:
+            st.by = (label, listkit.open_listing(by[label][0]))
+        except listkit.OpenFailed as e:
+            return [('C07|open|%s|second-object=%s' % (e.kind, kind),
+                     'opening a second listing (%s) next to %s: %s; actions %r' % (label, ctx.seed_name, e, st.hist + [op]))]
+        return []
+    label, b = st.by
+    kind = label.split(':')[0]
+    j0 = int(b._index)
+    b._file.arm()
+    try:
+        with listkit.quiet():
+            ret = b.next()
+    except listkit.BudgetExceeded as e:
+        b._file.disarm()
+        return [('C07|next|nontermination|second-object=%s' % kind,
+                 'next() on the second listing (%s) next to %s does not terminate: %s; actions %r'
+                 % (label, ctx.seed_name, e, st.hist + [op]))]
+    except (core.CaseTimeout, core.HarnessError):
+        raise
+    except Exception as e:
+        b._file.disarm()
+        return [('C07|next|raises-%s|second-object=%s' % (type(e).__name__, kind),
+                 'next() on the second listing (%s) next to %s raised %r; actions %r' % (label, ctx.seed_name, e, st.hist + [op]))]
+    b._file.disarm()
+    if judge:
+        nb = len(by[label][1])
+        want = min(j0 + 1, nb - 1)
+        if int(b._index) != want or bool(ret) != (j0 < nb - 1):
+            return [('C07|next|wrong-result-set|second-object=%s' % kind,
+                     'next() on the second listing (%s) from index %d gives index %r and returns %r; actions %r'
+                     % (label, j0, b._index, ret, st.hist + [op]))]
+    return []
+
+
+def judge_objects(st, op, idx, sim):
+    """No interference: with a second listing alive, the listing under test still shows what a fresh listing at
+    its index showed before any second object existed, and so does the second listing at its own index."""
+    ctx = st.ctx
+    label, b = st.by
+    kind = label.split(':')[0]
+    site = 'bystander-' + op[1] if op[0] == 'bystander' else ('history' if op[0] == 'history' else 'navigate')
+    out = []
+    obs = listkit.observe(st.lst, names=True)
+    ref = ctx.references()[idx]
+    if obs != ref:
+        part = _part(obs, ref)
+        out.append(('C07|%s|shows-other-%s-than-fresh-listing|%s|second-object=%s' % (site, part, sim, kind),
+                    'with a second listing (%s) alive, after %r the reader under test at index %d shows %s unlike a '
+                    'fresh listing with index = %d snapshotted before any second object existed (%s; got %r, fresh %r)'
+                    % (label, st.hist + [op], idx, part, idx, ctx.seed_name, _brief(obs), _brief(ref))))
+        return out
+    brefs = ctx.prepare_bystanders()[label][1]
+    try:
+        j = int(b._index)
+        bobs = listkit.observe(b, names=True)
+    except Exception as e:
+        j, bobs = None, repr(e)
+    if j is None or not 0 <= j < len(brefs) or bobs != brefs[j]:
+        part = _part(bobs, brefs[j]) if (j is not None and 0 <= j < len(brefs) and isinstance(bobs, tuple)) else 'nothing-sensible'
+        out.append(('C07|%s|second-object-shows-other-%s-than-its-fresh-snapshot|%s|second-object=%s' % (site, part, sim, kind),
+                    'after %r on %s the second listing (%s) at index %r shows %s unlike its own fresh snapshot'
+                    % (st.hist + [op], ctx.seed_name, label, j, part)))
+    return out
+
+
 def make_step(confirm):
     def step(st, op, judge=True):
         viol = apply_op(st, op, judge)
@@ -335,8 +531,11 @@ def canon_of(st):
     # states the same is the digest of the whole object (every attribute and the aliasing between them) plus
     # the file offset - not only the documented cursor fields (seeded change C07-b: a results cache whose
     # entries alias the live table arrays is invisible in index/time/step/table digests/offset)
+    by = None
+    if st.by is not None:
+        by = (st.by[0], listkit.full_state_digest(st.by[1]), st.by[1]._file.tell())
     return (st.ctx.key, st.ctx.k, int(lst._index), type(lst._index).__name__, repr(lst._time), repr(lst._step),
-            listkit.full_state_digest(lst), lst._file.tell())
+            listkit.full_state_digest(lst), lst._file.tell(), st.ctx.mode, by)
 
 
 def validate_state(st, c):
@@ -350,10 +549,11 @@ def validate_state(st, c):
             g.hist = g.hist + [op]
         cg = canon_of(g)
     finally:
-        listkit.close_listing(g.lst)
-    if cg != c:
-        raise core.HarnessError('replay on a copied fresh listing and on a genuine fresh open disagree '
-                                'after %r on %s: %r vs %r' % (st.hist, ctx.seed_name, c, cg))
+        close_state(g)
+    # False: the copied pristine listing and a genuine fresh open have drifted apart - state outside the object
+    # (class or module level) steers the reader.  That is no verdict by itself (a correct cache is legal): the
+    # search is restarted without the shortcut, every state restored through the real constructor.
+    return cg == c
 
 
 def seed_checks(ctx, st):
@@ -399,7 +599,7 @@ def search(rec, ctx, ops, shard, nshards, fresh):
     D only decides who does the work, never what is explored."""
     step = make_step(True)
     canon = canon_of
-    max_states = STATE_CAP_PER_RESULT_SET * ctx.model.n + 60
+    max_states = (STATE_CAP_PER_RESULT_SET * ctx.model.n + 60) * (12 if ctx.mode == 'by' else 1)
 
     def is_disc(hist, op):
         if op[0] == 'history':
@@ -431,7 +631,7 @@ def search(rec, ctx, ops, shard, nshards, fresh):
             # discovery actions first, so that a state every shard finds is marked public here too before a
             # non-discovery action of this shard reaches it (otherwise this shard would expand it as well)
             for disc, op in [(True, o) for o in ops if is_disc(hist, o)] + [(False, o) for o in ops if not is_disc(hist, o)]:
-                if not (mine or disc):
+                if not (mine or disc) or not enabled(hist, op):
                     continue
                 s2 = restore(hist)
                 with core.timelimit(120):
@@ -451,13 +651,18 @@ def search(rec, ctx, ops, shard, nshards, fresh):
                         rec.outcomes['violating-transition'] += 1
                     continue
                 if mine:
-                    rec.outcomes['conforming-transition:' + op[0]] += 1
+                    rec.outcomes['conforming-transition:' + ('second-object-alive' if s2.by is not None else op[0])] += 1
                 c2 = canon(s2)
                 k = core.h64(c2)
                 if k not in seen:
-                    if k % nshards == shard or not (pub and disc):
-                        validate_state(s2, c2)
+                    if not s2.genuine and (k % nshards == shard or not (pub and disc)):
                         rec.count('states_rederived_on_a_genuine_fresh_open')
+                        if not validate_state(s2, c2):
+                            ctx.force_genuine = True
+                            rec.count('searches_restarted_with_genuine_opens')
+                            rec.notes.append('search %s: copied and genuinely opened readers disagree after %r; '
+                                             'restarted with genuine opens only' % (ctx.seed_name, h2))
+                            return search(rec, ctx, ops, shard, nshards, fresh)
                     seen.add(k)
                     rec.state(k)
                     nxt.append((h2, pub and disc, k))
@@ -484,8 +689,8 @@ def search(rec, ctx, ops, shard, nshards, fresh):
 
 
 def run_unit(unit, tier, rec):
-    key, k, shard, nshards = unit
-    ctx = Ctx(key, k)
+    key, k, shard, nshards, mode = unit
+    ctx = Ctx(key, k, mode)
     try:
         _run_unit(ctx, unit, tier, rec)
     except listkit.OpenFailed as e:
@@ -506,20 +711,25 @@ def run_unit(unit, tier, rec):
 
 
 def _run_unit(ctx, unit, tier, rec):
-    key, k, shard, nshards = unit
+    key, k, shard, nshards, mode = unit
     live = []
 
     def fresh():
         while live:
-            listkit.close_listing(live.pop().lst)
-        st = State(ctx, _pristine.fresh(ctx.path))
+            close_state(live.pop())
+        # searches with a second object go through the real constructor every time (what a constructor does to
+        # other live objects is the point there); the others use the validated copy of a pristine fresh open
+        if ctx.mode == 'by' or ctx.force_genuine:
+            st = State(ctx, listkit.open_listing(ctx.path), genuine=True)
+        else:
+            st = State(ctx, _pristine.fresh(ctx.path))
         live.append(st)
         return st
 
     seed = fresh()
     ops = ctx.alphabet(seed.lst._tablenames)
     ctx.sim = seed.lst.simulator
-    fatal = seed_checks(ctx, seed) if shard == 0 else []
+    fatal = seed_checks(ctx, seed) if (shard == 0 and mode == 'main') else []
     for sig, what in fatal:
         rec.violation(sig, what, {'seed': ctx.seed_name, 'ops': []})
     if seed.lst.num_fulltimes != ctx.model.n:
@@ -531,8 +741,12 @@ def _run_unit(ctx, unit, tier, rec):
         return
     seen, closed = search(rec, ctx, ops, shard, nshards, fresh)
     while live:
-        listkit.close_listing(live.pop().lst)
-    if shard == 0:
+        close_state(live.pop())
+    if mode == 'by':
+        rec.count('searches_with_a_second_object', 1)
+        rec.count('states_in_searches_with_a_second_object', len(seen))
+        rec.count('second_object_kinds', len(ctx.prepare_bystanders()))
+    elif shard == 0:
         rec.count('searches', 1)
         rec.count('actions_in_alphabets', len(ops))
         rec.count('reference_observations', ctx.model.n)
@@ -574,11 +788,14 @@ def _run_case_inner(ctx, ops):
                 out += v
                 break
     finally:
-        listkit.close_listing(st.lst)
+        close_state(st)
     return out
 
 
 def replay(case):
     key, _, k = case['seed'].rpartition('@')
-    ctx = Ctx(key, int(k))
+    mode = 'main'
+    if k.endswith('+by'):
+        k, mode = k[:-3], 'by'
+    ctx = Ctx(key, int(k), mode)
     return _run_case(ctx, [list(op) for op in case['ops']])
